@@ -1308,30 +1308,39 @@ Section Editor.
   Definition completer_update (start : nat) (elected : str) : E unit :=
     edo s <- eget; lb_changes (replace start (pos (e_line s)) elected).
 
+  (* what the i-th round of circular completion shows: candidate i, or (i = n) the original text and cursor *)
+  Definition show_candidate (start : nat) (cands : list str) (backup : str * nat) (i : nat) : E unit :=
+    if Nat.ltb i (length cands) then
+      match nth_error cands i with Some c => completer_update start c | None => eret tt end
+    else lb_changes (update (fst backup) (snd backup)).
+
+  (* what the key read while candidate i is shown does; [rec] continues the loop at another index *)
+  Definition circular_branch (rec : nat -> E (option cmd)) (cands : list str) (backup : str * nat)
+             (mark : nat) (i : nat) (c : cmd) : E (option cmd) :=
+    match c with
+    | CComplete =>
+      let i' := (i + 1) mod (length cands + 1) in
+      (if Nat.eqb i' (length cands) then beep else eret tt) ;;;
+      rec i'
+    | CCompleteBackward =>
+      (if Nat.eqb i 0 then beep else eret tt) ;;;
+      rec (if Nat.eqb i 0 then length cands else (i - 1) mod (length cands + 1))
+    | CAbort =>
+      (if Nat.ltb i (length cands) then lb_changes (update (fst backup) (snd backup)) ;;; refresh_line
+       else eret tt) ;;;
+      edo s <- eget; set_changes (cs_truncate (e_changes s) mark) ;;; eret None
+    | _ => (edo _ <- changes_end; eret (Some c))
+    end.
+
   Fixpoint complete_circular (fuel : nat) (start : nat) (cands : list str) (backup : str * nat)
            (mark : nat) (i : nat) : E (option cmd) :=
     match fuel with
     | 0 => efuel
     | S f =>
-      (if Nat.ltb i (length cands) then
-         match nth_error cands i with Some c => completer_update start c | None => eret tt end
-       else lb_changes (update (fst backup) (snd backup))) ;;;
+      show_candidate start cands backup i ;;;
       refresh_line ;;;
       edo c <- next_cmd f true;
-      match c with
-      | CComplete =>
-        let i' := (i + 1) mod (length cands + 1) in
-        (if Nat.eqb i' (length cands) then beep else eret tt) ;;;
-        complete_circular f start cands backup mark i'
-      | CCompleteBackward =>
-        (if Nat.eqb i 0 then beep else eret tt) ;;;
-        complete_circular f start cands backup mark (if Nat.eqb i 0 then length cands else (i - 1) mod (length cands + 1))
-      | CAbort =>
-        (if Nat.ltb i (length cands) then lb_changes (update (fst backup) (snd backup)) ;;; refresh_line
-         else eret tt) ;;;
-        edo s <- eget; set_changes (cs_truncate (e_changes s) mark) ;;; eret None
-      | _ => (edo _ <- changes_end; eret (Some c))
-      end
+      circular_branch (fun i' => complete_circular f start cands backup mark i') cands backup mark i c
     end.
 
   Definition msg_display_all (n : nat) : str :=
@@ -1428,6 +1437,31 @@ Section Editor.
       ++ [114; 101; 118; 101; 114; 115; 101; 45; 105; 45; 115; 101; 97; 114; 99; 104; 41; 96]%N
       ++ term ++ [39; 58; 32]%N.
 
+  (* what the key read while searching does; [rec term idx dir success] continues the loop *)
+  Definition isearch_branch (rec : str -> nat -> sdir -> bool -> E (option cmd)) (backup : str * nat) (mark : nat)
+             (term : str) (idx : nat) (d : sdir) (success : bool) (c : cmd) : E (option cmd) :=
+    edo s <- eget;
+    let do_search (term' : str) (idx' : nat) (d' : sdir) : E (option cmd) :=
+        match h_search (hist_of s) term' idx' d' with
+        | Some (i, p, entry) => lb_changes (update entry p) ;;; rec term' i d' true
+        | None => rec term' idx' d' false
+        end in
+    match c with
+    | CSelfInsert _ ch => do_search (term ++ [ch]) idx d
+    | CKill (MBackwardChar _) => rec (removelast term) idx d success
+    | CReverseSearchHistory =>
+      if Nat.ltb 0 idx then do_search term (idx - 1) Reverse
+      else rec term idx Reverse false
+    | CForwardSearchHistory =>
+      if Nat.ltb idx (hlen_e s - 1) then do_search term (S idx) Forward
+      else rec term idx Forward false
+    | CAbort =>
+      lb_changes (update (fst backup) (snd backup)) ;;; refresh_line ;;;
+      edo s1 <- eget; set_changes (cs_truncate (e_changes s1) mark) ;;; eret None
+    | CMove _ => refresh_line ;;; (edo _ <- changes_end; eret (Some c))
+    | _ => (edo _ <- changes_end; eret (Some c))
+    end.
+
   Fixpoint isearch_loop (fuel : nat) (backup : str * nat) (mark : nat)
            (term : str) (idx : nat) (d : sdir) (success : bool) : E (option cmd) :=
     match fuel with
@@ -1435,28 +1469,7 @@ Section Editor.
     | S f =>
       refresh_prompt_and_line (search_prompt success term) ;;;
       edo c <- next_cmd f true;
-      edo s <- eget;
-      let do_search (term' : str) (idx' : nat) (d' : sdir) : E (option cmd) :=
-          match h_search (hist_of s) term' idx' d' with
-          | Some (i, p, entry) =>
-            lb_changes (update entry p) ;;; isearch_loop f backup mark term' i d' true
-          | None => isearch_loop f backup mark term' idx' d' false
-          end in
-      match c with
-      | CSelfInsert _ ch => do_search (term ++ [ch]) idx d
-      | CKill (MBackwardChar _) => isearch_loop f backup mark (removelast term) idx d success
-      | CReverseSearchHistory =>
-        if Nat.ltb 0 idx then do_search term (idx - 1) Reverse
-        else isearch_loop f backup mark term idx Reverse false
-      | CForwardSearchHistory =>
-        if Nat.ltb idx (hlen_e s - 1) then do_search term (S idx) Forward
-        else isearch_loop f backup mark term idx Forward false
-      | CAbort =>
-        lb_changes (update (fst backup) (snd backup)) ;;; refresh_line ;;;
-        edo s1 <- eget; set_changes (cs_truncate (e_changes s1) mark) ;;; eret None
-      | CMove _ => refresh_line ;;; (edo _ <- changes_end; eret (Some c))
-      | _ => (edo _ <- changes_end; eret (Some c))
-      end
+      isearch_branch (fun t i d' su => isearch_loop f backup mark t i d' su) backup mark term idx d success c
     end.
 
   Definition incremental_search (fuel : nat) : E (option cmd) :=
